@@ -92,6 +92,13 @@ func applyJSONFault(b []byte, ft fault, et *etype) ([]byte, error) {
 		if lit == "" {
 			return nil, errInapplicable
 		}
+		if ft.Field == "" && ft.Idx < 0 { // bare scalar document
+			if _, isNum := root.(json.Number); !isNum {
+				return nil, errInapplicable
+			}
+			root = json.Number(lit)
+			break
+		}
 		var a []interface{}
 		if ft.Field == "" {
 			a, _ = root.([]interface{})
@@ -263,6 +270,41 @@ func applyTableFault(b []byte, ft fault, et *etype) ([]byte, error) {
 			return nil, errInapplicable
 		}
 		ls[ft.Line][ft.Tok] = "x"
+	case "CellIndex":
+		if len(ls) < 2 || len(ls[0]) != 2 || len(ls[len(ls)-1]) != 3 {
+			return nil, errInapplicable
+		}
+		R, e1 := strconv.ParseInt(ls[0][0], 10, 64)
+		C, e2 := strconv.ParseInt(ls[0][1], 10, 64)
+		if e1 != nil || e2 != nil {
+			return nil, errInapplicable
+		}
+		vi, vj := int64(0), int64(0)
+		if ft.Other == "last" {
+			if vi = R - 1; vi < 0 {
+				vi = 0
+			}
+			if vj = C - 1; vj < 0 {
+				vj = 0
+			}
+		}
+		i, j := vi, vj
+		switch ft.Out {
+		case "col=cols":
+			j = C
+		case "col=cols+1":
+			j = C + 1
+		case "col=-1":
+			j = -1
+		case "row=rows":
+			i = R
+		case "row=-1":
+			i = -1
+		default:
+			return nil, fmt.Errorf("unknown cell fault %s", ft.Out)
+		}
+		ls[len(ls)-1][0] = strconv.FormatInt(i, 10)
+		ls[len(ls)-1][1] = strconv.FormatInt(j, 10)
 	case "EntryRange":
 		lit := rangeLiteral(et, ft.Val, ft.Notation)
 		if lit == "" || !lineOK(ft.Line) || ft.Tok >= len(ls[ft.Line]) {
@@ -399,6 +441,12 @@ func rangeLiteral(et *etype, val, notation string) string {
 	max := new(big.Int).Lsh(big.NewInt(1), uint(et.Bits-1))
 	min := new(big.Int).Neg(max)
 	max.Sub(max, big.NewInt(1))
+	switch val {
+	case "frac": // not an integer
+		return map[string]string{"dec": "1.5", "float": "0.5", "exp": "1.5e0"}[notation]
+	case "huge": // far outside every integer type
+		return map[string]string{"dec": "1000000000000000000000000000000", "float": "1000000000000000000000000000000.0", "exp": "1e30"}[notation]
+	}
 	var v *big.Int
 	switch val {
 	case "max":
